@@ -149,10 +149,14 @@ package generator
 //@   propagates
 //@   ensures res != nil && forall k int :: 0 <= k && k < len(res.Contents) ==> res.Contents[k] != nil
 //@   ensures $failed ==> res.Error != nil
+//@   ensures ncalls("p.Execute") >= 1 ==> ncalls("log.MultiWarn") >= 1 && callarg("log.MultiWarn", 0) == callret("p.Execute", 0).Warnings
+//@   ensures ncalls("be.Generate") >= 1 ==> ncalls("log.MultiWarn") == ncalls("be.Generate") + ncalls("p.Execute")
 //@   ensures ncalls("NewFileManager") >= 1 ==> ncalls("NewFileManager") == 1 && g.files == callret("NewFileManager", 0)
 //@   site call:g.GetBackend assert ncalls("NewFileManager") == 1 && g.files == callret("NewFileManager", 0)
 //@   modifies *
 //@   site call:be.Generate assert req.GeneratorParameters == plugin.Pack(out.Options)
 //@   site call:p.Execute assert req.PluginParameters == plugin.Pack(out.UsedPlugins[i].Options)
 //@   loop 1 invariant wfFM(g.files) && g.files != nil && req != nil && out == args.Out && !$failed
+//@   loop 1 invariant ncalls("be.Generate") == 1 && ncalls("log.MultiWarn") == 1 && ncalls("p.Execute") == 0
+//@   loop 2 invariant ncalls("be.Generate") == 1 && ncalls("log.MultiWarn") == 1 + ncalls("p.Execute") && (ncalls("p.Execute") >= 1 ==> callarg("log.MultiWarn", 0) == callret("p.Execute", 0).Warnings)
 //@   loop 2 invariant wfFM(g.files) && g.files != nil && req != nil && out == args.Out && !$failed && len(g.plugins) == len(out.UsedPlugins) && forall k int :: 0 <= k && k < len(g.plugins) ==> g.plugins[k] != nil
